@@ -211,8 +211,8 @@ pub fn check_program_sig(rep: &Report, p: &Program, text: &str, core_id: Option<
         let nexts = b"n\n".repeat(600);
         let out = run_cli(text.as_bytes(), &CliOpts { env: vec![("VERIF_NOMEM", "1")], stdin: &nexts, cap: 64 << 20, timeout_s: 60.0, ..Default::default() });
         rep.count("programs cross-checked on the real binary", 1);
-        if out.timed_out {
-            rep.inconclusive("cli watchdog");
+        if out.timed_out || out.flooded {
+            rep.inconclusive("cli watchdog / output cap");
         } else if !out.clean_exit() {
             fail("trace:cli-abort".into(), "C08: the binary aborts on a structured program".into(), out.status_str());
         } else {
@@ -271,7 +271,7 @@ fn long_programs(rep: &Report) {
 
 /// call depth: self-recursion bounded by a counter, and procedures left by a jump (their return index stays stacked)
 fn deep_calls(rep: &Report) {
-    let depths: Vec<usize> = vec![1, 2, 100, 127, 128, 129, 130, 200, 255, 256, 257, 1000, 5000];
+    let depths: Vec<usize> = vec![1, 2, 100, 127, 128, 129, 130, 200, 255, 256, 257, 1000, 5000, 32767, 32768, 32769, 40000];
     par_for(depths.len() * 2, 1, |j| {
         let d = depths[j / 2];
         let p = if j % 2 == 0 {
@@ -314,9 +314,9 @@ fn deep_calls(rep: &Report) {
             }
         };
         let text = p.render_plain().text;
-        check_program_with(rep, &p, &text, Some(format!("deep{}k{}", d, j % 2)), d == 129 || d == 1000 || d == 257, if j % 2 == 0 { "recursion" } else { "abandoned-frames" }, 100_000, 200_000);
+        check_program_with(rep, &p, &text, Some(format!("deep{}k{}", d, j % 2)), d == 129 || d == 1000 || d == 257 || d == 32769 || d == 40000, if j % 2 == 0 { "recursion" } else { "abandoned-frames" }, d * 8 + 100_000, d * 8 + 200_000);
     });
-    rep.count("call-depth programs (recursion and abandoned frames up to depth 5000)", (depths.len() * 2) as u64);
+    rep.count("call-depth programs (recursion and abandoned frames up to depth 40000)", (depths.len() * 2) as u64);
 }
 
 pub fn run(rep: &Report) {
